@@ -5,7 +5,8 @@ import PPModel.Mod.PRSpec
   C05 — results names.
 
   The shared parse model (PPModel/Mod/Parse.lean) returns an *annotated token tree*: `Tok.nm name modal asList ts` says
-  "the tokens `ts` were produced by an element carrying results name `name`", `Tok.g ts` is the sub-result of a Group.
+  "the tokens `ts` were produced by an element carrying results name `name`", `Tok.g ts` is the sub-result of a Group,
+  `Tok.hid ts` are tokens deleted from the list whose names stay (FollowedBy, the parts of a Combine).
   This file gives that tree its meaning, twice:
 
   (i)  `resultOf` — the OPERATIONAL reading: replay what the real code does to build the `ParseResults` object, with the
